@@ -4,8 +4,10 @@ CONSTANTS Mode = "obj"
  N = 0
  SelfLoops = TRUE
  InitAfterOwn = TRUE
+ FreeKinds = FALSE
  Fixed = TRUE
  ResetCurFn = TRUE
+ SkipSizeof = FALSE
  Emit = FALSE
 INVARIANTS ObjRefines FnRefines AWellFormed
 CHECK_DEADLOCK FALSE
